@@ -103,17 +103,17 @@ func plonkGetFixture(shape string) *plonkFixture {
 		f.pubVec1 = pubVector(pub1)
 		hookMu.RLock()
 		defer hookMu.RUnlock()
-		p0, err := plonk.Prove(ccs, pk, f.full0)
+		p0, err := plonk.Prove(ccs, pk, f.full0, PlonkProverOpts...)
 		if err != nil {
 			return fmt.Errorf("prove0: %w", err)
 		}
 		f.proof = p0.(*plonkc.Proof)
-		p1, err := plonk.Prove(ccs, pk, full1)
+		p1, err := plonk.Prove(ccs, pk, full1, PlonkProverOpts...)
 		if err != nil {
 			return fmt.Errorf("prove1: %w", err)
 		}
 		f.other = p1.(*plonkc.Proof)
-		if err := plonk.Verify(f.proof, f.vk, pub0); err != nil {
+		if err := plonk.Verify(f.proof, f.vk, pub0, PlonkVerifierOpts...); err != nil {
 			return fmt.Errorf("genuine proof rejected: %w", err)
 		}
 		return nil
@@ -244,7 +244,7 @@ func plonkRun(b *Behaviour) Result {
 		}
 		var p plonk.Proof
 		var err error
-		pan, msg := common.Safely(func() { p, err = plonk.Prove(f.ccs, f.pk, f.full0) })
+		pan, msg := common.Safely(func() { p, err = plonk.Prove(f.ccs, f.pk, f.full0, PlonkProverOpts...) })
 		verifhook.PostSolveFn = nil
 		hookMu.Unlock()
 		if !applied {
@@ -408,7 +408,8 @@ func plonkRun(b *Behaviour) Result {
 		toVerify = dec
 	}
 	var verr error
-	pan, msg := common.Safely(func() { verr = plonk.Verify(toVerify, vk, pw, vopts...) })
+	allOpts := append(append([]backend.VerifierOption(nil), PlonkVerifierOpts...), vopts...)
+	pan, msg := common.Safely(func() { verr = plonk.Verify(toVerify, vk, pw, allOpts...) })
 	switch {
 	case pan:
 		res.Verdict, res.Stage, res.Err = "panic", "verify", msg
@@ -417,7 +418,32 @@ func plonkRun(b *Behaviour) Result {
 	default:
 		res.Verdict, res.Stage, res.Err = "reject", plonkStage(verr), verr.Error()
 	}
+	if PlonkObserver != nil && len(vopts) == 0 && !pan {
+		PlonkObserver(b, f.ccs, toVerify, vk, pw, res.Verdict)
+	}
 	return res
+}
+
+// PlonkProverOpts / PlonkVerifierOpts are appended to every native Prove / Verify call of the PLONK replay (set by the
+// recursion replay before the first fixture is built).
+var (
+	PlonkProverOpts   []backend.ProverOption
+	PlonkVerifierOpts []backend.VerifierOption
+)
+
+// PlonkObserver, when set, sees every edited triple that reached the native verifier together with the native verdict (C17).
+var PlonkObserver func(b *Behaviour, ccs constraint.ConstraintSystem, proof plonk.Proof, vk plonk.VerifyingKey, pw witness.Witness, verdict string)
+
+// PlonkRun is plonkRun for other packages.
+func PlonkRun(b *Behaviour) Result { return plonkRun(b) }
+
+// PlonkAlt returns the verifying key of the alternative circuit (same layout, same SRS).
+func PlonkAlt(shape string) plonk.VerifyingKey {
+	f := plonkGetFixture(shape)
+	if f.setupErr != nil {
+		return nil
+	}
+	return f.vkAlt
 }
 
 func plonkReplay(args common.Args, out *common.Out) error {
